@@ -135,6 +135,27 @@ def sibling_failures(run_):
     return any(len(v) > 1 for v in by_job.values())
 
 
+def producer_failed_during_recovery(spec, run_):
+    """True iff a job that is an ancestor of another failed job failed itself (e.g. its transfer found the freshly
+    regenerated input deleted again) -- a failure INSIDE a recovery workflow that other recoveries depend on."""
+    failed = [j for j, _, _ in run_.failure_log]
+    for j in failed:
+        for other in failed:
+            if other != j and j in ancestors(spec, other):
+                return True
+    return False
+
+
+def hang_key(prop, params, run_, base):
+    """stable key of a hang: the two recorded causes (known_findings.json) are keyed by cause and program"""
+    prog = params["spec"]["prog"]
+    if run_ is not None and sibling_failures(run_):
+        return f"C16|hang|cause=two-steps-of-one-job-fail-with-overlapping-recoveries|prog={prog}"
+    if run_ is not None and producer_failed_during_recovery(params["spec"], run_):
+        return f"C16|hang|cause=producer-fails-while-being-re-executed-for-concurrent-recoveries|prog={prog}"
+    return base + "|hang"
+
+
 def summarize(res):
     run_ = res["run"]
     counts = {}
